@@ -22,7 +22,8 @@ RULE = (
     "reference value).  Work monitor: number of python calls inside fcp/serde.py during the decode "
     "(sys.monitoring) <= 64*bits(input) + 800*schema_nodes + 4000, enforced from the monitoring "
     "callback so that a runaway loop is stopped, plus a 20 s CPU alarm (twice in isolation => "
-    "violation).  distinct = distinct (shape signature, fault kind, cut position class)."
+    "violation) and a memory monitor (peak RSS may not grow by more than 300 MB during one decode; "
+    "the address space is capped at 8 GB so a buffer sized by an announced count surfaces as MemoryError).  distinct = distinct (shape signature, fault kind, cut position class)."
 )
 ASSUMPTIONS = [
     "any exception raised by decode counts as a decoding error",
@@ -97,26 +98,52 @@ def _alarm(signum, frame):
     raise CpuAlarm()
 
 
+MEM_SLACK_KB = 300 * 1024  # a decode of a < 64 KB input may not raise the process' peak RSS by more
+
+
+def limit_address_space():
+    """Keeps a runaway allocation (a buffer sized by an announced 2^32-1 count) from taking the
+    machine down: it surfaces as MemoryError, which the memory monitor reports."""
+    import resource
+
+    try:
+        soft, hard = resource.getrlimit(resource.RLIMIT_AS)
+        cap = 8 << 30
+        if soft == resource.RLIM_INFINITY or soft > cap:
+            resource.setrlimit(resource.RLIMIT_AS, (cap, hard))
+    except (ValueError, OSError):
+        pass
+
+
 def guarded_decode(mon, fcp, name, data, limit):
-    """Returns ('value', v) | ('raised', exc) | ('work', msg) | ('cpu', None)."""
+    """Returns ('value', v) | ('raised', exc) | ('work', msg) | ('cpu', None) | ('memory', msg)."""
+    import resource
     from fcp import serde
 
     signal.signal(signal.SIGVTALRM, _alarm)
     signal.setitimer(signal.ITIMER_VIRTUAL, 20.0)
+    rss0 = resource.getrusage(resource.RUSAGE_SELF).ru_maxrss
     mon.arm(limit)
     try:
         v = serde.decode(fcp, name, bytearray(data))
-        return ("value", v, mon.disarm())
+        out = ("value", v, mon.disarm())
     except WorkLimit as e:
         mon.disarm()
-        return ("work", str(e), limit)
+        out = ("work", str(e), limit)
     except CpuAlarm:
         mon.disarm()
-        return ("cpu", None, 0)
+        out = ("cpu", None, 0)
+    except MemoryError as e:
+        mon.disarm()
+        out = ("memory", "MemoryError while decoding a %d byte input" % len(data), 0)
     except Exception as e:
-        return ("raised", e, mon.disarm())
+        out = ("raised", e, mon.disarm())
     finally:
         signal.setitimer(signal.ITIMER_VIRTUAL, 0)
+    grown = resource.getrusage(resource.RUSAGE_SELF).ru_maxrss - rss0
+    if out[0] in ("value", "raised") and len(data) < (1 << 16) and grown > MEM_SLACK_KB:
+        return ("memory", "peak RSS grew by %d MB while decoding a %d byte input" % (grown >> 10, len(data)), 0)
+    return out
 
 
 def cut_points(run, n, key):
@@ -143,6 +170,9 @@ def judge(run, mon, fcp, sch, name, data, text, kind, expect, nodes, sig, value=
     run.count("decodes_judged")
     if out[0] == "work":
         run.violation("work bound exceeded while decoding a %d byte input: %s" % (len(data), out[1]), case)
+        return
+    if out[0] == "memory":
+        run.violation("memory not bounded by the input length: %s (%s)" % (out[1], kind), case)
         return
     calls = out[2]
     if calls / float(limit) > mon.max_ratio:
@@ -209,6 +239,7 @@ def run(run):
         run.inconclusive_because("reference codec fails its self-check: %s" % problems[:2])
         return
     mon = Monitor()
+    limit_address_space()
     units = CC.schema_units(run, with_big=False)
     # fewer random schemas than C01: each case fans out into dozens of faults
     keep = run.pick(40, 900)
@@ -274,7 +305,7 @@ def replay(run, case):
     mon.reach.stop()
     if out[0] == "value" and case["fault"].startswith(("prefix", "optional flag set")):
         run.violation("decode returned a value for %s" % case["fault"], dict(case, returned=out[1]))
-    elif out[0] in ("work", "cpu"):
-        run.violation("work bound exceeded", case)
+    elif out[0] in ("work", "cpu", "memory"):
+        run.violation("work / memory bound exceeded: %s" % (out[1],), case)
     elif "reference" in case and out[0] == "value" and not ref.same(out[1], case["reference"]):
         run.violation("differs from reference", case)
